@@ -59,7 +59,7 @@ def run(ctx):
     table = collections.OrderedDict()
     bases = []
     for p in xp:
-        bk = "%d/%d/%d" % (p['base']['nstreams'], p['base']['check'], p['base']['nblocks'])
+        bk = "%d/%s" % (p['base']['check'], ";".join(",".join(str(d) for d in st) for st in p['base']['dids']))
         fl = p['fault']
         key = "|".join([bk, fl['kind'], str(fl['s']), str(fl['b']), fl['f'], fl['cls']])
         row = [p['ret'], bool(p['same'])]
